@@ -1,5 +1,6 @@
 import BreezyVerif.Common
 import BreezyVerif.Model.C32
+import BreezyVerif.Model.C32S
 /-
 C32 driver.
 
@@ -11,6 +12,13 @@ ops  = `;`-joined: ts:<revno>:<rev> | tg:<name>:<rev> | td:<name> | tD | cs:<nam
 results = `;`-joined: ok | token | E:… | tags=<n>=<r>,… | val=<hex|~> | pm=<k>=<p+p…>,… | info=<n>:<rev>
 state   = tip=<n>:<rev> tags=… conf=… lock=<T|F> revs=<k,k…>   (dictionaries sorted)
 The remote run lets the server add the whole source graph to every get_parent_map answer.
+
+  sess <tipCoherent T|F> <tagsOwn T|F> <tagsReal T|F> <src> <sops>
+      →  L=<res@obj;…>|<state> R=<res@obj;…>|<state> S=<res;…>|<state>
+sops = `;`-joined: lw | lr | ul | tp | st:<revno>:<rev> | pl:<T|F>:<revno>:<rev>:<name=rev,…|-> | tg:<name>:<rev> | tD
+obj  = <u|r|w><count>/<tip cache>/<tags cache>/<real T|F>/<VFS branch tip cache>/<VFS branch tags cache>
+       (caches: `~` = empty, tip `n:rev`, tags sorted `name=rev,…` or `-`)
+L = the local object, R = the remote object of the given variant, S = the cache-free specification.
 -/
 namespace BreezyVerif.C32
 
@@ -57,6 +65,7 @@ def showRes : Res → String
   | .pmap m => "pm=" ++ joinList (sortStrs (m.map fun e =>
       s!"{toHex e.1}={if e.2.isEmpty then "~" else "+".intercalate (e.2.map toHex)}"))
   | .info n r => s!"info={n}:{toHex r}"
+  | .moved o n k => s!"moved={o.1}:{toHex o.2}>{n.1}:{toHex n.2}/{k}"
 
 def showSt (st : St) : String :=
   s!"tip={st.tip.1}:{toHex st.tip.2} tags={showDict st.tags} conf={showDict st.conf} " ++
@@ -65,7 +74,63 @@ def showSt (st : St) : String :=
 def showRun (r : List Res × St) : String :=
   (if r.1.isEmpty then "-" else ";".intercalate (r.1.map showRes)) ++ "|" ++ showSt r.2
 
+def parseTags (s : String) : Option Tags :=
+  (splitList s).mapM fun e =>
+    match e.splitOn "=" with
+    | [n, r] => do pure (← fromHex n, ← fromHex r)
+    | _ => none
+
+def parseSOp (s : String) : Option SOp :=
+  match s.splitOn ":" with
+  | ["lw"] => some .lockW
+  | ["lr"] => some .lockR
+  | ["ul"] => some .unlock
+  | ["tp"] => some .tip
+  | ["st", n, r] => do pure (.setTip (← n.toNat?) (← fromHex r))
+  | ["pl", ow, n, r, tg] => do pure (.pull (← parseBool ow) (← n.toNat?) (← fromHex r) (← parseTags tg))
+  | ["tg", n, r] => do pure (.tagSet (← fromHex n) (← fromHex r))
+  | ["tD"] => some .tagDict
+  | _ => none
+
+def showTipC : Option (Nat × RevId) → String
+  | none => "~"
+  | some c => s!"{c.1}:{toHex c.2}"
+
+def showTagsC : Option Tags → String
+  | none => "~"
+  | some d => showDict d
+
+def showMode : Mode → String
+  | .unlocked => "u"
+  | .r => "r"
+  | .w => "w"
+
+def showObj (o : Obj) : String :=
+  s!"{showMode o.lk.mode}{o.lk.count}/{showTipC o.tipC}/{showTagsC o.tagsC}/{showBool o.real}/" ++
+  s!"{showTipC o.realTipC}/{showTagsC o.realTagsC}"
+
+/-- run a session, recording the object after every operation -/
+def traceSess (step : Obj → St → SOp → Res × Obj × St) : Obj → St → List SOp → List String × St
+  | _, st, [] => ([], st)
+  | o, st, op :: ops =>
+    let (r, o1, s1) := step o st op
+    let (rs, s2) := traceSess step o1 s1 ops
+    (s!"{showRes r}@{showObj o1}" :: rs, s2)
+
+def showTrace (r : List String × St) : String :=
+  (if r.1.isEmpty then "-" else ";".intercalate r.1) ++ "|" ++ showSt r.2
+
 def handle : List String → String
+  | ["sess", tc, go, gr, src, ops] =>
+    match parseBool tc, parseBool go, parseBool gr, parseGraph src,
+        (if ops == "-" then some [] else (ops.splitOn ";").mapM parseSOp) with
+    | some tc, some go, some gr, some src, some ops =>
+      let v : Variant := { tipCoherent := tc, tagsOwn := go, tagsReal := gr }
+      let l := traceSess (lsStep src) {} St.init ops
+      let r := traceSess (rsStep v src (src.map (·.1))) {} St.init ops
+      let sp := runSpec src {} St.init ops
+      s!"L={showTrace l} R={showTrace r} S={showRun (sp.1, sp.2.2)}"
+    | _, _, _, _, _ => "bad-op"
   | ["run", fx, src, ops] =>
     match parseBool fx, parseGraph src, (if ops == "-" then some [] else (ops.splitOn ";").mapM parseOp) with
     | some fx, some src, some ops =>
